@@ -13,6 +13,7 @@ mod util;
 
 mod buf2;
 mod pnm;
+mod obj;
 
 use std::io::{BufRead, BufWriter, Write};
 
@@ -54,6 +55,7 @@ fn subsystem(name: &str) -> Option<(GenFn, ExecFn)> {
     Some(match name {
         "buf2" => (buf2::gen, buf2::exec),
         "pnm" => (pnm::gen, pnm::exec),
+        "obj" => (obj::gen, obj::exec),
         _ => return None,
     })
 }
